@@ -388,13 +388,13 @@ Proof.
 Qed.
 
 (** ---- the leaf named objects: Mutex, Event, OperationRegion ---- *)
-Inductive lkind : Type := LMutex | LEvent | LOpReg.
-Definition lk_op (lk : lkind) : N := match lk with LMutex => aml_pOpMutex | LEvent => aml_pOpEvent | LOpReg => aml_pOpOpRegion end.
-Definition lk_info (lk : lkind) : N := match lk with LMutex => 84 | LEvent => 85 | LOpReg => 104 end.
-Definition lk_af (lk : lkind) : N := match lk with LMutex => 1289 | LEvent => 9 | LOpReg => 33686793 end.
-Definition lk_ws (lk : lkind) : list fw := match lk with LMutex => [W1] | LEvent => [] | LOpReg => [W1] end.
+Inductive lkind : Type := LMutex | LEvent | LOpReg | LName.
+Definition lk_op (lk : lkind) : N := match lk with LMutex => aml_pOpMutex | LEvent => aml_pOpEvent | LOpReg => aml_pOpOpRegion | LName => aml_pOpName end.
+Definition lk_info (lk : lkind) : N := match lk with LMutex => 84 | LEvent => 85 | LOpReg => 104 | LName => 3 end.
+Definition lk_af (lk : lkind) : N := match lk with LMutex => 1289 | LEvent => 9 | LOpReg => 33686793 | LName => 3081 end.
+Definition lk_ws (lk : lkind) : list fw := match lk with LMutex => [W1] | LEvent => [] | LOpReg => [W1] | LName => [] end.
 (** number of TermArg arguments, parsed as the next objects and attached by connectNamedObjArgs *)
-Definition lk_nt (lk : lkind) : nat := match lk with LMutex => 0 | LEvent => 0 | LOpReg => 2 end.
+Definition lk_nt (lk : lkind) : nat := match lk with LMutex => 0 | LEvent => 0 | LOpReg => 2 | LName => 1 end.
 
 Lemma lk_facts lk : valid_opcode (lk_op lk) /\ lk_op lk <> aml_pOpNoop /\ lk_op lk <> opFreed /\ is_prefix_op (lk_op lk) = false /\
   opcodeTableIndex (lk_op lk) true = Some (lk_info lk) /\ opInfo (lk_info lk) = Some (lk_op lk, 1, lk_af lk).
@@ -406,9 +406,10 @@ Qed.
 Lemma lk_args lk : argCount (lk_af lk) = 1 + N.of_nat (length (lk_ws lk)) + N.of_nat (lk_nt lk) /\
   argType (lk_af lk) 0 = aml_pArgTypeNameString /\
   (forall j w, nth_error (lk_ws lk) j = Some w -> argType (lk_af lk) (1 + N.of_nat j) = fw_ty w) /\
-  (lk_nt lk <> O -> argType (lk_af lk) (1 + N.of_nat (length (lk_ws lk))) = aml_pArgTypeTermArg).
+  (lk_nt lk <> O -> argType (lk_af lk) (1 + N.of_nat (length (lk_ws lk))) = aml_pArgTypeTermArg \/
+                    argType (lk_af lk) (1 + N.of_nat (length (lk_ws lk))) = aml_pArgTypeDataRefObj).
 Proof.
-  destruct lk; (split; [reflexivity|]; split; [reflexivity|]; split; [|cbn [lk_nt]; intros Hn; try (exfalso; apply Hn; reflexivity); reflexivity]);
+  destruct lk; (split; [reflexivity|]; split; [reflexivity|]; split; [|cbn [lk_nt]; intros Hn; try (exfalso; apply Hn; reflexivity); first [left; reflexivity|right; reflexivity]]);
     intros j w Hj; destruct j as [|[|j]]; cbn [nth_error lk_ws] in Hj; try discriminate; try (inversion Hj; reflexivity); destruct j; discriminate.
 Qed.
 
@@ -482,6 +483,56 @@ Proof.
     unfold leaf_pays'. fold lo. unfold pl2, pl1 in H'. rewrite <- !app_assoc in H'. cbn [app] in H' |- *. exact H'. }
   destruct (Nat.eq_dec (lk_nt lk) 0) as [Hz|Hnz].
   - apply parseArgs_end; [lia|]. split; [reflexivity|]. exists t3. split; [reflexivity|apply Hfin; exact H3].
-  - rewrite parseArgs_go by lia. rewrite (Htt Hnz). unfold wp, bindM. rewrite parseArg_TermArg by exact Hab.
-    cbv beta iota. unfold ret. split; [reflexivity|]. exists t3. split; [reflexivity|apply Hfin; exact H3].
+  - rewrite parseArgs_go by lia. destruct (Htt Hnz) as [Ety|Ety]; rewrite Ety; unfold wp, bindM;
+      [rewrite parseArg_TermArg by exact Hab|rewrite parseArg_DataRef by exact Hab];
+      cbv beta iota; unfold ret; (split; [reflexivity|]); exists t3; (split; [reflexivity|apply Hfin; exact H3]).
+Qed.
+
+(** ---- a string object ---- *)
+Lemma objargs_str f cur a s g pl pre b rest post (Q : pres -> pstate -> Prop) :
+  Rep (p_tree s) g pl -> pget pl cur = Some a -> y_op a = aml_pOpStringPrefix ->
+  at_token (p_r s) pre ((b ++ [0]) ++ rest) post -> Forall ascii_char b ->
+  (forall t', Rep t' g (pupd pl cur (ys_val (Some (VBytes (cur_tbl s) (mkSlice (Some (lenN pre)) (lenN b)))))) ->
+      Q ROk (with_tree (with_r s (set_offset_raw (p_r s) (lenN pre + lenN b + 1))) t')) ->
+  wp False (parseObjectArgs (S f) cur) s Q.
+Proof.
+  intros H Ha Hop Hat Hasc K. assert (Hl : y_op a <> opFreed) by (rewrite Hop; discriminate). cbn [parseObjectArgs].
+  apply wp_bind. eapply wp_rdf_rep; [exact H|exact Ha|exact Hl|]. intros o Ho _ _ _. rewrite (pay_op _ _ Ho), Hop.
+  unfold curTable. apply wp_bind, wp_get.
+  change (aml_pOpStringPrefix =? aml_pOpBytePrefix) with false. change (aml_pOpStringPrefix =? aml_pOpWordPrefix) with false.
+  change (aml_pOpStringPrefix =? aml_pOpDwordPrefix) with false. change (aml_pOpStringPrefix =? aml_pOpQwordPrefix) with false.
+  change (aml_pOpStringPrefix =? aml_pOpStringPrefix) with true. cbv iota.
+  apply wp_bind. apply wp_bind. apply wp_lex.
+  exists (mkSlice (Some (lenN pre)) (lenN b)), true, (set_offset_raw (p_r s) (lenN pre + lenN b + 1)). split.
+  { apply (string_roundtrip b (p_r s) pre (rest ++ post) Hasc). apply at_split. exact Hat. }
+  cbv beta iota. apply wp_bind. unfold bytesValue. cbn [s_ptr].
+  eapply (wp_wrf_rep False _ _ (ys_val _)); [exact H|exact Ha|exact Hl|apply st_value|].
+  intros t' H'. apply wp_ret. cbn [pres_of_bool]. apply wp_ret. apply K. exact H'.
+Qed.
+
+Definition str_pay' (s : pstate) (off : N) (b : list N) : pay :=
+  mkPay aml_pOpStringPrefix 7 (p_handle s) name_zero off 0 (Some (VBytes (cur_tbl s) (mkSlice (Some (off + 1)) (lenN b)))).
+
+Lemma next_string f s g pl pre b rest post sc scs a :
+  Rep (p_tree s) g pl -> g_free g = [] -> N.of_nat (length pl) < InvalidIndex ->
+  at_token (p_r s) pre (aml_pOpStringPrefix :: (b ++ [0]) ++ rest) post -> Forall ascii_char b ->
+  p_scopeStack s = sc :: scs -> pget pl sc = Some a -> y_op a <> opFreed ->
+  wp False (parseNextObject (S (S (S f)))) s (fun res s' => res = ROk /\ exists t',
+    s' = with_tree (with_r s (set_offset_raw (p_r s) (lenN pre + 1 + lenN b + 1))) t' /\
+    Rep t' (g_head g sc) (pl ++ [str_pay' s (lenN pre) b])).
+Proof.
+  intros H Hfree Hroom Hat Hasc Est Hsc Hlsc.
+  eapply (next_head _ aml_pOpStringPrefix 7 s g pl pre _ post sc scs a);
+    [exact H|exact Hfree|exact Hroom|exact Hat| |discriminate|discriminate|reflexivity|exact Est|exact Hsc|exact Hlsc|].
+  { split; [cbv; discriminate|]. exists 7. split; [reflexivity|discriminate]. }
+  intros t1 H1. change (lenN (enc_op aml_pOpStringPrefix)) with 1.
+  set (s1 := with_tree (with_r s (set_offset_raw (p_r s) (lenN pre + 1))) t1).
+  set (a1 := mkPay aml_pOpStringPrefix 7 (p_handle s) name_zero (lenN pre) 0 None) in *.
+  assert (Hn : pget (pl ++ [a1]) (N.of_nat (length pl)) = Some a1) by apply pget_app_last.
+  assert (Hat1 : at_token (p_r s1) (pre ++ [aml_pOpStringPrefix]) ((b ++ [0]) ++ rest) post).
+  { apply (at_adv (p_r s) pre [aml_pOpStringPrefix] _ post). exact Hat. }
+  eapply (objargs_str _ _ a1 s1 _ _ _ b rest post); [exact H1|exact Hn|reflexivity|exact Hat1|exact Hasc|].
+  intros t2 H2. split; [reflexivity|]. exists t2. split.
+  - unfold s1. rewrite lenN_app. reflexivity.
+  - rewrite pupd_app_last in H2. unfold str_pay'. rewrite lenN_app in H2. exact H2.
 Qed.
